@@ -124,9 +124,11 @@ def main():
         if a.keep:
             dst = os.path.join(HERE, 'seeded', a.name)
             os.makedirs(dst, exist_ok=True)
-            shutil.copy(patch, os.path.join(dst, 'patch.diff'))
-            shutil.copy(demo, os.path.join(dst, 'demo.py'))
+            for src, name in ((patch, 'patch.diff'), (demo, 'demo.py')):
+                if os.path.abspath(src) != os.path.join(dst, name):
+                    shutil.copy(src, os.path.join(dst, name))
             meta2 = dict(meta)
+            meta2.pop('check_results', None)
             meta2['breaks_property'] = prop
             meta2['confirmed'] = {
                 'tests_with_patch': res['tests_with_patch'],
